@@ -376,7 +376,7 @@ def dup_ids_case(run, text: str, i: int) -> None:
     for blk in tree.iter_tree(blocks=True):
         if blk.has_children() and blk.name in ('solid', 'side', 'entity'):
             for child in blk:
-                if child.name == 'id' and not child.has_children() and child.value.isdigit():
+                if child.name == 'id' and not child.has_children() and child.value.isdecimal() and child.value.isascii():
                     child.value = str(int(child.value) % 3 + 1)
                     n += 1
     if n < 2:
